@@ -301,7 +301,12 @@ Definition continuation (c : conn) : conn :=
 
 Definition is_err (e : option rerr) : bool := match e with Some EEof => false | Some _ => true | None => false end.
 
-(* one atomic step of a direction: returns the new direction state, the source socket and the time *)
+(* TIOCINQ on the source socket: bytes (not a FIN) are waiting right now *)
+Definition data_pending (s : sock) (now : N) : bool :=
+  negb (k_closed s) && match k_in s with c :: _ => c_at c <=? now | [] => false end.
+
+(* one atomic step of a direction: returns the new direction state, the source socket and the time.
+   pend: the source unwraps to a *net.TCPConn, so tryRelayGatherWrite asks TIOCINQ and reads once if it says yes *)
 Definition dir_step (pend : bool) (d : dirst) (s : sock) (now : N) : dirst * sock * N :=
   match d_phase d with
   | PStart =>
@@ -309,7 +314,7 @@ Definition dir_step (pend : bool) (d : dirst) (s : sock) (now : N) : dirst * soc
       match segs with
       | [] => (mkD (PLoop (d_stack d)) (d_stack d) (d_out d) (d_nwrites d) (d_cw d) (d_cw_at d) (d_cw_len d), s, now)
       | _ =>
-          if pend then
+          if pend && data_pending s now then
             let '(r, c2, s2, t) := conn_read c1 c05_relay_buf s now in
             let out := d_out d ++ segs ++ r_data r in
             match r_err r with
